@@ -6,6 +6,7 @@ cd "$(dirname "$0")/.." || exit 2
 export VERIF_BUDGET_S="${VERIF_BUDGET_S:-300}"
 export VERIF_SEED="${VERIF_SEED:-7}"
 export VERIF_OUT="${VERIF_OUT:-$(mktemp -d /tmp/thorough.XXXXXX)}"
+mkdir -p "$VERIF_OUT"
 rc=0
 for c in C01 C02 C03 C04 C05 C08 C09 C10 C12 C13 C14 C15 C16 C17 C18 C19 C20; do
   ./check $c thorough > "$VERIF_OUT/log.$c" 2>&1; r=$?
